@@ -2,6 +2,8 @@
 import RSV.Props.C01all
 import RSV.Props.C02
 import RSV.Props.C03
+import RSV.Props.C04all
+import RSV.Props.C05all
 import RSV.Props.C06
 import RSV.Props.C07
 import RSV.Props.C08
@@ -13,4 +15,4 @@ import RSV.Props.C13
 import RSV.Props.C14
 import RSV.Props.C15
 import RSV.Props.C16
-import RSV.Props.C17
+import RSV.Props.C17all
